@@ -6,7 +6,7 @@ import itertools
 from fractions import Fraction
 
 from .. import gen
-from ..common import cnat, cq, cbool, clist, copt, coq_eval
+from ..common import cnat, cq, cbool, clist, copt, safe_coq_eval
 from ..impl import Impl
 
 IMPORTS = ['Base.Util', 'Model.Diffusion']
@@ -407,9 +407,10 @@ def run(ctx, scratch):
             add(algo, 'malformed_' + which, n, n, [], values=seed_form(rng, n, seeds), **kw)
 
     # ---- the model, evaluated inside Coq
-    vals = coq_eval('c14fit', IMPORTS, [c['expr'] for c in cases], shard=150)
-    for c, v in zip(cases, vals):
-        c['model'] = conv_model(v)
+    vals = safe_coq_eval(ctx, 'c14fit', IMPORTS, [c['expr'] for c in cases], shard=150)
+    model_dead = vals is None      # recorded in ctx.proof_broken: no model diff; the scale / bounds / seeds / forms / limit oracles stay
+    for c, v in zip(cases, vals or [None] * len(cases)):
+        c['model'] = conv_model(v) if v is not None else None
 
     n_forms = 0
     n_scaled = 0
@@ -425,11 +426,11 @@ def run(ctx, scratch):
             ctx.count(algo + ':' + fam, (algo, args), nontrivial)
             exp = c['model']
             site = 'Diffusion.fit' if algo == 'diffusion' else 'Dirichlet.fit'
-            if not agree(exp, got):
+            if not model_dead and not agree(exp, got):
                 ctx.violation(site, 'implementation differs from the exact rational model (%s)' % fam,
                               case=args, expected=show(exp), observed=got, algo=algo, family=fam, oracle='model')
             if k % 350 == 0:
-                ctx.sample(dict(algo=algo, family=fam, args=args, model=show(exp), impl=got))
+                ctx.sample(dict(algo=algo, family=fam, args=args, model=show(exp) if not model_dead else None, impl=got))
             # -- metamorphic: multiplying every weight by 2**e does not change the result
             if c['twin'] is not None:
                 n_scaled += 1
@@ -514,10 +515,12 @@ def run(ctx, scratch):
             limit_cases.append((n, tri, seeds, fam, sol))
         ctx.margin_dropped += dropped
         # the exact solutions are themselves validated inside Coq by the executable harmonic check
-        checks = coq_eval('c14harm', IMPORTS, [
+        checks = safe_coq_eval(ctx, 'c14harm', IMPORTS, [
             'harmonic_checkb %s %s %s %s' % (rows_lit(n, tri), clist([cbool(i in seeds) for i in range(n)]),
                                                qvec_lit([seeds.get(i, -1) for i in range(n)]), qvec_lit(sol))
             for (n, tri, seeds, fam, sol) in limit_cases], shard=60) if limit_cases else []
+        if checks is None:
+            checks = [True] * len(limit_cases)     # model dead: the (Python, exact rational) solutions are used unvalidated
         for (n, tri, seeds, fam, sol), okb in zip(limit_cases, checks):
             if okb is not True:
                 raise RuntimeError('harness error: rational harmonic solution rejected by harmonic_checkb')
